@@ -119,7 +119,27 @@ volatile int san_hit = 0;
 #ifdef XDRV_SAN
 void __asan_on_error(void) { san_hit |= 1; }
 void __ubsan_on_report(void) { san_hit |= 2; }
+#if defined(__has_feature)
+#if __has_feature(memory_sanitizer)
+#include <sanitizer/msan_interface.h>
+#define XDRV_MSAN 1
 #endif
+#endif
+#endif
+
+/* every line a sanitizer runtime prints (ASan, UBSan, MSan) passes through this weak hook of sanitizer_common */
+#ifdef XDRV_SAN
+void __sanitizer_on_print(const char *str) { if (str && (strstr(str, "Sanitizer") || strstr(str, "runtime error"))) san_hit |= 8; }
+#endif
+
+/* C16: dependence on uninitialised stack shows as a result that changes with what happened to be there: optionally scribble the stack below
+ * the call frame before every call (XDRV_STACKFILL=<byte>; the reference processes and the history processes use different bytes) */
+static int stackfill = -1;
+static void __attribute__((noinline)) scribble_stack(int v) {
+    volatile unsigned char buf[49152];
+    for (size_t i = 0; i < sizeof buf; i++) buf[i] = (unsigned char)v;
+    __asm__ volatile("" : : "r"(buf) : "memory");
+}
 
 /* ------------------------------------------------------------------ request state */
 col_t cols[XDRV_MAXCOL];
@@ -164,6 +184,7 @@ static int errfd = -1;
 int main(int argc, char **argv) {
     (void)argc; (void)argv;
     setvbuf(stdout, NULL, _IOFBF, 1 << 20);
+    if (getenv("XDRV_STACKFILL")) stackfill = atoi(getenv("XDRV_STACKFILL")) & 255;
     const char *loc = getenv("XDRV_LOCALE");
     if (loc && *loc) { if (!setlocale(LC_ALL, loc)) { fprintf(stderr, "xdrv: cannot set locale %s\n", loc); return 5; } }
 #ifndef XDRV_SAN
@@ -211,6 +232,7 @@ int main(int argc, char **argv) {
             off_t pos0 = errfd >= 0 ? lseek(errfd, 0, SEEK_CUR) : 0;
             san_hit = 0;
             uint64_t seq0 = trk_seq; long live0 = trk_live;
+            if (stackfill >= 0) scribble_stack(stackfill);
             trk_window(); trk_on = 1;
             if (f) f->call(j, r, m == 1 ? NULL : &e);
             else op->call(j, r, m == 1 ? NULL : &e);
@@ -236,6 +258,9 @@ int main(int argc, char **argv) {
                 }
                 trk_forget(seq0);
             }
+#ifdef XDRV_MSAN
+            if (__msan_test_shadow(r->v, sizeof r->v) != -1) { san_hit |= 4; __msan_unpoison(r->v, sizeof r->v); }
+#endif
             if (errfd >= 0 && lseek(errfd, 0, SEEK_CUR) != pos0) r->flags |= F_STDERR;
             if (san_hit) r->flags |= F_SAN;
         }
